@@ -34,6 +34,16 @@ RankZ(A) == Cardinality({k \in 1..MinDim(A) : DetDivisor(A, k) # 0})
 
 (* second oracle: recursive Smith reduction *)
 Quot(a, p) == IF p > 0 THEN a \div p ELSE -(a \div (-p))
+\* extended Euclid with truncating division exactly as `gcdx` in geometry/traits.rs: <<g, r, s, r', s'>> with
+\* g = r*a + s*b and 0 = r'*a + s'*b  (shared by Diagonalize.tla and Echelon.tla)
+\* Rust's truncating division: `Quot` is floor division for p > 0; the code divides machine integers, which truncates toward zero
+TQuot(a, b) == LET q == Abs(a) \div Abs(b) IN IF (a < 0) = (b < 0) THEN q ELSE -q
+RECURSIVE GcdxT(_,_,_,_,_,_)
+GcdxT(a, an, r, rn, s, sn) ==
+   IF an = 0 THEN <<a, r, s, rn, sn>>
+   ELSE LET q == TQuot(a, an) IN GcdxT(an, a - q * an, rn, r - q * rn, sn, s - q * sn)
+Gcdx(a, b) == GcdxT(a, b, 1, 0, 0, 1)
+TRem(a, b) == a - TQuot(a, b) * b
 RECURSIVE SNF(_)
 SNF(A) ==
   LET n == NR(A) m == NC(A) IN
